@@ -24,7 +24,8 @@ MANIFEST = dict(
               'c05_property over all generated objects) + fail-closed, semantically normalising ast census of math.py (store sites, angle '
               'creations, constructor paths per argument form by symbolic run, format/parse pipelines by return-path enumeration, __format__ '
               'as text terms, mutation events, result kinds of every public method, symbolic run of every copy-like method, __hash__ after '
-              'Python\'s resolution, in-place operator methods; the sets of names the census relies on are least fixpoints computed from the '
+              'Python\'s resolution, in-place operator methods, the census of STATE KEPT BETWEEN CALLS (stores into module-/class-level objects, '
+              'mutable defaults, caching decorators: must be empty - the register models of the history theorems have no other state); the sets of names the census relies on are least fixpoints computed from the '
               'source) + vm_compute correspondences (bit-exact / string-exact / parse results / frames / result aliasing / copied slots bit for '
               'bit / __format__ components string-exact) + searches (histories over 66 operation kinds incl. ERROR PATHS - public calls with '
               'arguments they must refuse, then the same frame/range checks on what was left behind -, matrix->angle routes, every constructor '
@@ -45,7 +46,8 @@ MANIFEST = dict(
          'a frozen receiver writes its receiver, an argument or a copy() of either, frozen objects never change and non-receivers are never '
          'written (the new values of written registers are arbitrary: covers interrupted calls); the hash of a frozen object (unhashable, or a '
          'function of all of its slots and nothing else - never the identity; the hash of mutable classes is outside the property) is the same '
-         'after every history and equal for equal values; no class of a frozen object defines an in-place operator; two objects of one family '
+         'after every history and equal for equal values; histories carry no state but the objects (census of shared state empty); no class '
+         'of a frozen object defines an in-place operator; two objects of one family '
          'with identical slots compare == (per-slot comparisons read from __eq__, each accepting a difference of zero; the == table is a field of '
          'the source record of c05_property). Copy theorem on a heap '
          'with aliasing, and the VALUE of a copy (class, every slot; angles: same real value, in range). (c) format_float on every dyadic: '
